@@ -7,6 +7,9 @@ type Obj struct {
 	rec.Core
 	F1, F2 interface{}
 	f3     interface{}
+	// scratch is written by NewTouch through every *Obj argument it is given (plain, unsynchronised writes: user code that
+	// believes it owns what it was given)
+	scratch int64
 }
 
 // Val is a small comparable value type.
@@ -25,3 +28,13 @@ type Wrapped struct {
 }
 
 type Iface interface{ ID() int64 }
+
+// Types spelled like local variables, parameters and results of the generated accessors: a configuration may name any type
+// of its own package.
+type (
+	ctx     = Obj
+	err     = Obj
+	result  = Obj
+	service = Obj
+	ok      = Obj
+)
